@@ -65,6 +65,7 @@ type c11Op struct {
 	cyc   bool   // gen: cyclic repetition of a 4093-byte block (multi-megabyte payloads)
 	seed  int
 	label ot.Label
+	fresh bool // SendLabel with a fresh ot.LabelData instead of the script's shared scratch buffer
 	sizes []int
 }
 
@@ -138,6 +139,9 @@ func (o c11Op) String() string {
 		}
 		return fmt.Sprintf("%s(%x)", n, o.data)
 	case c11KLabel:
+		if o.fresh {
+			return "Label(" + o.label.String() + ",fresh-buffer)"
+		}
 		return "Label(" + o.label.String() + ")"
 	case c11KSizes:
 		return fmt.Sprintf("Sizes(%v)", o.sizes)
@@ -453,7 +457,13 @@ func c11Send(conn *p2p.Conn, ops []c11Op, wire *c11Wire) c11SendRes {
 		case c11KString:
 			err = conn.SendString(string(o.data))
 		case c11KLabel:
-			err = conn.SendLabel(o.label, &ld)
+			// the callers in the repository reuse ONE ot.LabelData for all labels of a session
+			if o.fresh {
+				var f ot.LabelData
+				err = conn.SendLabel(o.label, &f)
+			} else {
+				err = conn.SendLabel(o.label, &ld)
+			}
 		case c11KSizes:
 			err = conn.SendInputSizes(o.sizes)
 		case c11KFlush:
@@ -622,6 +632,37 @@ func c11SizeClass(n int) string {
 	return ">1Mi+64"
 }
 
+// c11RandLabel: structured labels next to random ones (zero, one half zero, tweak-shaped,
+// all ones, single bit, equal halves).
+func c11RandLabel(r *RNG) (ot.Label, string) {
+	switch r.Intn(12) {
+	case 0:
+		return ot.Label{}, "zero"
+	case 1:
+		return ot.Label{D0: 0, D1: r.U64()}, "high-word-zero"
+	case 2:
+		return ot.NewTweak(uint32(r.U64())), "tweak"
+	case 3:
+		return ot.Label{D0: r.U64(), D1: 0}, "low-word-zero"
+	case 4:
+		return ot.Label{D0: ^uint64(0), D1: ^uint64(0)}, "all-ones"
+	case 5:
+		var l ot.Label
+		if b := r.Intn(128); b < 64 {
+			l.D1 = 1 << uint(b)
+		} else {
+			l.D0 = 1 << uint(b-64)
+		}
+		return l, "single-bit"
+	case 6:
+		x := r.U64()
+		return ot.Label{D0: x, D1: x}, "equal-halves"
+	case 7:
+		return ot.Label{D0: 0, D1: uint64(r.Intn(256))}, "high-word-zero"
+	}
+	return ot.Label{D0: r.U64(), D1: r.U64()}, "random"
+}
+
 func c11RandOp(r *RNG, c *Ctx, big bool) c11Op {
 	switch r.Intn(13) {
 	case 0, 1:
@@ -663,7 +704,9 @@ func c11RandOp(r *RNG, c *Ctx, big bool) c11Op {
 		d, g, s := c11Payload(r, c, big && r.Intn(3) == 0)
 		return c11Op{kind: c11KString, data: d, gen: g, seed: s}
 	case 10, 11:
-		return c11Op{kind: c11KLabel, label: ot.Label{D0: r.U64(), D1: r.U64()}}
+		l, shape := c11RandLabel(r)
+		c.Hist("label:" + shape)
+		return c11Op{kind: c11KLabel, label: l, fresh: r.Intn(5) == 0}
 	}
 	n := r.Intn(12)
 	if r.Intn(6) == 0 {
@@ -713,7 +756,14 @@ func c11GenOps(r *RNG, c *Ctx, class string, flushP int) []c11Op {
 			n = 1 + r.Intn(3)
 		}
 		for i := 0; i < n; i++ {
-			add(c11RandOp(r, c, false))
+			o := c11RandOp(r, c, false)
+			add(o)
+			// labels come in runs (garbled tables, input labels): more labels through the same scratch buffer
+			for o.kind == c11KLabel && r.Intn(2) == 0 {
+				l, shape := c11RandLabel(r)
+				c.Hist("label:" + shape)
+				add(c11Op{kind: c11KLabel, label: l, fresh: r.Intn(8) == 0})
+			}
 		}
 	case "mixed":
 		n := 2 + r.Intn(14)
@@ -1200,7 +1250,27 @@ func c11Judge(c *Ctx, sess int, mode int, name string, d *c11Dir) {
 			fail("c11:Close:undelivered", fmt.Sprintf("when Close returned the transport had %d of %d bytes", d.send.closeLen, len(stream)))
 		}
 		if !bytes.Equal(wbuf, stream) {
-			fail("c11:wire:bytes", fmt.Sprintf("transport carried %d bytes, expected %d; first difference at %d", len(wbuf), len(stream), c11FirstDiff(wbuf, stream)))
+			at := c11FirstDiff(wbuf, stream)
+			key := "c11:wire:bytes"
+			detail := fmt.Sprintf("transport carried %d bytes, expected %d; first difference at %d", len(wbuf), len(stream), at)
+			// which value's encoding is hit?  a label written through the shared scratch buffer?
+			pos := 0
+			for i, v := range sent {
+				n := len(v.encode())
+				if at < pos+n {
+					detail += fmt.Sprintf(" (inside value %d, %s)", i, c11Clip(sendOps[i].String(), 80))
+					if v.kind == c11KLabel && pos+16 <= len(wbuf) {
+						var onWire ot.Label
+						onWire.SetBytes(wbuf[pos : pos+16])
+						if k, dt, ok := c11StaleLabel(sendOps, i, onWire); ok {
+							key, detail = k, "on the wire: "+dt
+						}
+					}
+					break
+				}
+				pos += n
+			}
+			fail(key, detail)
 		}
 		for _, ch := range d.wire.chunks {
 			if len(ch) == 0 || len(ch) > c11WriteBuf {
@@ -1229,8 +1299,14 @@ func c11Judge(c *Ctx, sess int, mode int, name string, d *c11Dir) {
 				break
 			}
 			if !d.recv.vals[i].equal(sent[i]) {
-				fail(fmt.Sprintf("c11:recv:%s:mismatch", c11KindName(s.recv[i])),
-					fmt.Sprintf("receive %d: sent %s (op %s), got %s", i, sent[i], c11Clip(sendOps[i].String(), 200), d.recv.vals[i]))
+				key := fmt.Sprintf("c11:recv:%s:mismatch", c11KindName(s.recv[i]))
+				detail := fmt.Sprintf("receive %d: sent %s (op %s), got %s", i, sent[i], c11Clip(sendOps[i].String(), 200), d.recv.vals[i])
+				if s.recv[i] == c11KLabel && sent[i].kind == c11KLabel {
+					if k, dt, ok := c11StaleLabel(sendOps, i, d.recv.vals[i].label); ok {
+						key, detail = k, "received: "+dt
+					}
+				}
+				fail(key, detail)
 				break
 			}
 		}
@@ -1260,6 +1336,33 @@ func c11Judge(c *Ctx, sess int, mode int, name string, d *c11Dir) {
 			fail("c11:recv:retyped:mismatch", fmt.Sprintf("re-encoded received values differ from the sent stream at %d", c11FirstDiff(got, stream)))
 		}
 	}
+}
+
+// c11StaleLabel recognises a label that arrived with one word of the label that went through
+// the shared ot.LabelData scratch buffer before it.  i indexes the value-carrying ops.
+func c11StaleLabel(sendOps []c11Op, i int, got ot.Label) (key, detail string, ok bool) {
+	if sendOps[i].kind != c11KLabel || sendOps[i].fresh {
+		return "", "", false
+	}
+	prev := -1
+	for j := i - 1; j >= 0; j-- {
+		if sendOps[j].kind == c11KLabel && !sendOps[j].fresh {
+			prev = j
+			break
+		}
+	}
+	if prev < 0 {
+		return "", "", false
+	}
+	want, before := sendOps[i].label, sendOps[prev].label
+	seq := fmt.Sprintf("labels sent through ONE ot.LabelData: value %d SendLabel(%s), then value %d SendLabel(%s) -> Label(%s)", prev, before, i, want, got)
+	switch {
+	case got.D1 == want.D1 && got.D0 != want.D0 && got.D0 == before.D0:
+		return "c11:label:stale-high-word-from-shared-scratch", seq + " = high word of the earlier label + low word of the sent one", true
+	case got.D0 == want.D0 && got.D1 != want.D1 && got.D1 == before.D1:
+		return "c11:label:stale-low-word-from-shared-scratch", seq + " = high word of the sent label + low word of the earlier one", true
+	}
+	return "", "", false
 }
 
 func c11KindName(k int) string {
